@@ -181,8 +181,8 @@ Proof.
   2: { apply vdiff_none_jeq; assumption. }
   apply vwf_arr_inv in Hwo.
   rewrite vdiff_arr in Ed. unfold vdiff_array in Ed.
-  set (idx := vcompute_reorder_indices o n) in *.
-  assert (Hlen : List.length idx = List.length n) by apply vreorder_indices_length.
+  set (idx := vchoose o n) in *.
+  assert (Hlen : List.length idx = List.length n) by apply vchoose_length.
   set (oc := negb (Nat.eqb (List.length o) (List.length idx)) || negb (order_is_identity 0 idx)) in *.
   set (el := vdiff_elems o 0 (varr_subs n) idx) in *.
   assert (Hrt : forall i v j, nth_error n i = Some v -> nth_error idx i = Some j -> vRT_js (voldI o j) v).
